@@ -330,12 +330,13 @@ def checkSchnorrSignature (fixed : Bool) (V : Bytes → Bytes → Bytes → Bool
 
 /-! ### delSig (FindAndDelete of one signature push) -/
 
-/-- `btc.PutVlen(buf, len)` as `delSig` uses it to build the "push" prefix (NOT a script push opcode
-    for len ≥ 76 — see Props.C02 `delSig_eq_findAndDelete_partial`) -/
-def putVlenPrefix (n : Nat) : Bytes :=
-  if n < 0xfd then [UInt8.ofNat n]
-  else if n < 0x10000 then 0xfd :: leBytes 2 n
-  else 0xfe :: leBytes 4 n
+/-- the push opcode `delSig` places in front of the signature (its `switch` on `len(sig)`): a direct push
+    below OP_PUSHDATA1, else PUSHDATA1/2/4 with `byte(len)`, `byte(len>>8)`, … (truncating conversions) -/
+def sigPushPrefix (n : Nat) : Bytes :=
+  if n < 0x4c then [UInt8.ofNat n]
+  else if n ≤ 0xff then [0x4c, UInt8.ofNat n]
+  else if n ≤ 0xffff then 0x4d :: leBytes 2 n
+  else 0x4e :: leBytes 4 n
 
 def delSigAux (pat : Bytes) : Nat → Bytes → Bytes × Nat
   | 0, _ => ([], 0)
@@ -349,7 +350,7 @@ def delSigAux (pat : Bytes) : Nat → Bytes → Bytes × Nat
 
 /-- `delSig(where, sig)`: (script without the pushes of `sig`, number removed) -/
 def delSig (wh sig : Bytes) : Bytes × Nat :=
-  delSigAux (putVlenPrefix sig.length ++ sig) wh.length wh
+  delSigAux (sigPushPrefix sig.length ++ sig) wh.length wh
 
 /-! ### call sequences on one transaction object -/
 
